@@ -1,5 +1,7 @@
 """Profile dispatch: how a run index becomes a plan, and how a plan is run
 and judged, for each claimed property."""
+import os
+
 from . import engine as E
 from . import hist
 
@@ -28,7 +30,7 @@ def make_plan(prop, rng, idx, tier, variant="asan"):
             from . import cli
             plan, cfg = cli.make_plan(rng, idx)
             return plan, "cli"
-        if idx % 20 in (3, 16) and variant != "vg":
+        if (idx % 20 in (3, 16) or os.environ.get("VERIF_FORCE_CFG") == "damaged") and variant != "vg":
             # libdw fails half-way: whatever was being built at that moment
             # (a cache entry, a half-filled table) must not be kept for later
             return hist.gen_history(rng, "C13", damaged=True), "damaged-file"
